@@ -425,7 +425,7 @@ pub fn worker(ctx: &WorkerCtx) -> WorkerResult {
     let id: &'static str = if ctx.id == "C13" { "C13" } else { "C14" };
     let (c13, c14) = (id == "C13", id == "C14");
     let cases = match ctx.tier {
-        Tier::Quick => 30_000u64,
+        Tier::Quick => 100_000u64,
         Tier::Thorough => 400_000,
     };
     let cases = std::env::var("VERIF_CASES").ok().and_then(|s| s.parse().ok()).unwrap_or(cases);
